@@ -10,7 +10,7 @@ from . import c26
 
 ID = "C27"
 TECHNIQUE = "CFG ordering rules (info-before-rename, rename-before-delete, held-flag after rename) and exception-type routing on LockDir (ast)"
-FLOOR = 12
+FLOOR = 16
 LD = c26.LD
 EXPLANATION = """
 R1 (K1) _create_pending_dir writes the holder info file into the pending directory before every return and returns the
